@@ -26,7 +26,7 @@ m = dict(
     engines=[
         dict(name="psym", path="psv/sym.py psv/seq.py psv/pattern.py psv/simk.py psv/run.py", serves_properties=sorted(CHECKS),
              kind_free_text="symbolic execution of the real psutil Python code by proxy values; z3 decides every data-dependent branch and every obligation; simulated kernel (procfs/sysfs/syscall stubs) supplies symbolic records; counterexamples are replayed on the real code with ordinary values"),
-        dict(name="cir", path="psv/cir.py", serves_properties=["C17"],
+        dict(name="cir", path="psv/cir.py", serves_properties=["C17", "C18"],
              kind_free_text="bounded symbolic interpreter for the LLVM IR (clang -O0, regenerated from /repo on every run) of named C functions of the extension: z3 bit-vectors, byte memory of sized objects with a bounds obligation on every access, stubs for CPython/libc/kernel calls"),
         dict(name="sched", path="psv/sched.py", serves_properties=["C04", "C10", "C11", "C16"],
              kind_free_text="real threads run one at a time under a line-level scheduler (sys.settrace); 'pre-empt here?' is a symbolic boolean per yield point under a pre-emption budget, so the explorer enumerates exactly the admitted schedules while data stays symbolic"),
